@@ -278,6 +278,88 @@ def _ascii_ok(x):
     return True
 
 
+# ------------------------------------------------------------------------------------------------ fragment
+# Mirror of may_inp / good_key / ok_e / ok_s / in_fragment of JsDeps/Model.v (the fragment of C31_sound_partial).
+# Only used to COUNT: the claim goes into the Coq case and Corr.check_case recomputes it with the model's own
+# predicate, so a divergence of this mirror is a correspondence mismatch.
+RESERVED_ALL = set("break do instanceof typeof case else new var catch finally return void continue for switch while "
+                   "debugger function this with default if throw delete in try class enum extends super const export "
+                   "import implements let private public interface package protected static yield null true "
+                   "false".split())
+
+
+def may_inp(e):
+    k = e[0]
+    if k == "id" or k == "call":
+        return True
+    if k == "paren":
+        return may_inp(e[1])
+    if k == "cond":
+        return may_inp(e[2]) or may_inp(e[3])
+    if k == "assign":
+        return may_inp(e[2])
+    return False
+
+
+def good_key(k):
+    if k[0] != "str":
+        return False
+    q = '"' if k[1] else "'"
+    return (q + k[2] + q).strip("'\"") == k[2] and k[2] != ""
+
+
+def ok_e(br, e):
+    k = e[0]
+    if k in ("num", "str", "bool", "id"):
+        return True
+    if k == "dot":
+        if e[1][0] == "id":
+            return e[2] not in RESERVED_ALL
+        return (not may_inp(e[1])) and ok_e(br, e[1])
+    if k == "idx":
+        if e[1][0] == "id":
+            return good_key(e[2])
+        return (not may_inp(e[1])) and ok_e(br, e[1]) and ok_e(br, e[2])
+    if k == "add":
+        return ok_e(br, e[1]) and ok_e(br, e[2])
+    if k == "cond":
+        return ok_e(br, e[1]) and ok_e(True, e[2]) and ok_e(True, e[3])
+    if k == "paren":
+        return ok_e(br, e[1])
+    if k == "assign":
+        if e[1] == "inputs":
+            return False
+        r = e[2]
+        if r[0] == "id":
+            return (not br) or r[1] == "inputs"
+        return (not may_inp(r)) and ok_e(br, r)
+    return False
+
+
+def ok_s(br, s):
+    k = s[0]
+    if k == "var":
+        return True
+    if k == "vari":
+        return (not may_inp(s[2])) and ok_e(br, s[2])
+    if k in ("expr", "ret"):
+        return ok_e(br, s[1])
+    if k == "if":
+        return ok_e(br, s[1]) and all(ok_s(True, x) for x in s[2]) and all(ok_s(True, x) for x in s[3])
+    return False
+
+
+def in_fragment(case):
+    if case.get("lib"):
+        return False
+    for p in case["parts"]:
+        if p[0] == "js" and not all(ok_s(False, s) for s in p[1]):
+            return False
+        if p[0] == "jsx" and not ok_e(False, ["paren", p[1]]):
+            return False
+    return True
+
+
 # ------------------------------------------------------------------------------------------------ generation
 class Ctx:
     def __init__(self, aliases=None, strs=None, funs=None):
@@ -423,12 +505,14 @@ class Gen:
         ctx.captured = True
         return [["fun", name, ps_, body]]
 
-    def top(self, ctx, n):
-        """n top-level statement groups of a well-tracked program."""
+    def top(self, ctx, n, nofun=False):
+        """n top-level statement groups of a well-tracked program (nofun: no function declarations/expressions)."""
         rng = self.rng
         out = []
         for _ in range(n):
             r = rng.random()
+            if nofun and 0.7 <= r < 0.88:
+                r = 0.95
             if r < 0.2:
                 v = self.fresh("s")
                 out.append(["vari", v, self.g_str(ctx, 1)])
@@ -522,8 +606,22 @@ class Gen:
             for _ in range(rng.randrange(1, 3)):
                 lib.extend(self.fun_decl(ctx, 1))
         n = rng.choice([0, 1, 2, 3, 4, 6])
-        pre = self.top(ctx, n)
+        nofun = kind == "safe" and not lib and rng.random() < 0.5     # candidates for the proved fragment
+        pre = self.top(ctx, n, nofun)
         body = pre
+        if kind == "safe" and not nofun and rng.random() < 0.3:
+            # a function whose parameter shadows `inputs`, called with a string, followed (below) by a read of
+            # the real inputs: the shadowing must end with the function
+            f = self.fresh("sh")
+            inner = [["ret", ["dot", ["id", "inputs"], "length"]]]
+            if rng.random() < 0.5:
+                inner = [["expr", self.access(["id", "inputs"], "length")]] + inner
+            body = body + [["fun", f, ["inputs"], inner], ["expr", ["call", ["id", f], [self.strlit("abc")]]]]
+            ctx.funs.append((f, 1))
+            ctx.captured = True
+            body = body + [["ret", ["add", ["call", ["id", f], [self.strlit("zzz")]],
+                                    self.access(["id", "inputs"], rng.choice(STRF))]]]
+            return {"f": kind, "lib": lib, "parts": [["js", body]]}
         if kind != "safe":
             body = body + self.hazard(kind, ctx)
             if kind != "nested_delete" and rng.random() < 0.5:
@@ -584,28 +682,35 @@ class C31(Prop):
     CORR_MODULE = "JsDeps.Corr"
     LEVEL = "proof"
     LEVEL_TEXT = ("Theorems (Coq, closed under the global context) over a model of CWLDependencyListener/NamesStack/"
-                  "regex_eval and an instrumented big-step evaluator of an ES5 fragment: for every parameter reference "
-                  "rooted at inputs with a symbol/quoted first segment, on every inputs object, every terminating "
-                  "evaluation reads only fields of the dependency set (C31_paramref_sound, unbounded segment lists); and "
-                  "machine-checked counterexamples (C31_*_refuted) showing that the property text is FALSE of the "
-                  "analysis for JavaScript: computed access and a nested-scope assignment make it raise, and aliasing "
+                  "regex_eval and an instrumented big-step evaluator of an ES5 fragment. C31_sound_partial / "
+                  "C31_total_partial: for every body of the syntactic function-free fragment in_fragment (dot and quoted-"
+                  "bracket access on identifiers, member chains on bases that cannot be inputs, var, identifier-to-"
+                  "identifier aliasing and re-binding, +, ?:, if/else, return; any nesting, any size), every inputs "
+                  "object and every fuel, the analysis does not fail and a terminating evaluation reads only fields of the "
+                  "dependency set. C31_paramref_sound: the same for every parameter reference with a symbol/quoted first "
+                  "segment. C31_*_refuted: kernel-computed counterexamples showing the property text is FALSE of the "
+                  "analysis outside that fragment: computed access and a nested-scope assignment make it raise; aliasing "
                   "through var initialisers / chained assignment / parenthesised bases / function parameters / returns / "
-                  "closures / inner scopes, branch-insensitive alias deletion, reserved-word fields and quote stripping "
-                  "lose reads. Soundness of the analysis on well-tracked JavaScript programs is NOT proved: it is only "
-                  "exercised by the correspondence (model listener = resolve_dependencies, model evaluator's read set = "
-                  "node's with a Proxy around inputs) and by the oracle on generated programs.")
-    LEVEL_NOTE = ("partial: the positive half is proved for parameter references only; for JavaScript bodies only the "
-                  "counterexamples are theorems, the tracked fragment is exercised, not proved. Trusted: Coq kernel + "
-                  "vm_compute; the hand-written model JsDeps/Model.v; the harness' printer (AST -> JS text) and the ANTLR "
-                  "parser (text -> parse tree) are not modelled; node 20 and cwl_utils' scanner/regex_eval are reference "
-                  "oracles. No axioms.")
-    TECHNIQUE = ("Coq proof (induction over reference segments; kernel-computed counterexamples) + vm_compute "
+                  "closures / inner scopes, branch-insensitive alias deletion, reserved-word fields, quote stripping and "
+                  "index-first references lose reads. The model is tied to /repo by running resolve_dependencies and the "
+                  "model listener on generated expressions, and to JavaScript by comparing the model evaluator's read set "
+                  "with node's (Proxy around inputs).")
+    LEVEL_NOTE = ("partial: soundness is proved for the function-free fragment and for parameter references; programs with "
+                  "function declarations/expressions/calls are exercised by the correspondence and the oracle, not proved. "
+                  "Trusted: Coq kernel + vm_compute; the hand-written model JsDeps/Model.v; the harness' printer (AST -> "
+                  "JS text) and the ANTLR parser (text -> parse tree) are not modelled; node 20 and cwl_utils' "
+                  "scanner/regex_eval are reference oracles. No axioms.")
+    TECHNIQUE = ("Coq proof (simulation invariant between the listener's name set and the evaluator's store, by induction "
+                 "on evaluation fuel; induction over reference segments; kernel-computed counterexamples) + vm_compute "
                  "correspondence against resolve_dependencies and node")
     RULE = ("structured expressions: well-tracked programs (aliases via assignment, re-binding, if/else, ternaries, "
             "function declarations/expressions with shadowing parameters and nesting, expressionLib functions, string "
             "literals mentioning inputs), parameter references (dot/single/double/index segments, escaped quotes, "
             "non-inputs roots), interpolated strings, and one program per known-mishandled construct class. "
-            "Non-trivial = has a JS part or a reference with a segment. Distinct = distinct canonical JSON.")
+            "About half of the `safe` programs are function-free candidates for the proved fragment; the evidence sample "
+            "`fragment_membership` counts, per kind, the cases inside the fragment of C31_sound_partial (flag recomputed "
+            "by the model). Some `safe` programs declare a function whose parameter shadows `inputs` and then read the "
+            "real inputs. Non-trivial = has a JS part or a reference with a segment. Distinct = distinct canonical JSON.")
     TRUSTED = ("model: JsDeps/Model.v (listener, NamesStack, regex_eval, ES5-fragment evaluator) is hand-written",
                "the printer AST -> JavaScript text in harness/props/c31.py and the ANTLR ECMAScript parser are not "
                "modelled: the model walks the AST in the order the walker visits the parse tree of the printed text",
@@ -622,7 +727,7 @@ class C31(Prop):
 
     # ---------------------------------------------------------------- generation
     def gen(self, rng, tier):
-        n = {"quick": 300, "thorough": 2400, "extended": 600}[tier]
+        n = {"quick": 200, "thorough": 2000, "extended": 400}[tier]
         g = Gen(rng)
         cases = []
         while len(cases) < n:
@@ -746,8 +851,24 @@ class C31(Prop):
             e = "ONoEval"
         else:
             e = f"(OEval {coq_bool(o['ok'])} " + coq_list([coq_str(x) for x in o["reads"]]) + ")"
+        frag = in_fragment(c)
+        has_js = any(p[0] in ("js", "jsx") for p in c["parts"])
+        st_ = self._frag.setdefault(c["f"], [0, 0, 0])
+        st_[0] += 1
+        st_[1] += has_js
+        st_[2] += frag and has_js
         return (f"CCase {css(c.get('lib', []))} {coq_list([cpart(p) for p in c['parts']])} "
-                f"{cinputs()} {d} {e}")
+                f"{cinputs()} {d} {e} {coq_bool(frag)}")
+
+    _frag: dict = {}
+
+    def extra_samples(self):
+        tot = {k: {"cases": v[0], "with_js_part": v[1], "with_js_part_in_fragment_of_C31_sound_partial": v[2]}
+               for k, v in sorted(self._frag.items())}
+        return [{"fragment_membership": tot,
+                 "note": "cases (per kind) that lie inside the syntactic fragment on which C31_sound_partial is proved; "
+                         "the flag is recomputed by Corr.check_case with the model's in_fragment, and for those cases "
+                         "check_case also requires observed reads <= observed deps and no analysis failure"}]
 
     def nontrivial(self, c):
         return any(p[0] in ("js", "jsx") or (p[0] == "ref" and p[2]) for p in c["parts"])
